@@ -19,7 +19,7 @@ def run(ctx):
     ctx.prove()
     if ctx.thorough():
         ctx.leanchecker()
-    sizes = [100] * 16 if ctx.thorough() else [30] * 4
+    sizes = [60] * 12 if ctx.thorough() else [30] * 4
     if ctx.broken:
         sizes = sizes * 2
     batches = S.run_batches(ctx, "C01", {"lens"}, sizes, ptr_embed=True, seed_tag=1)
